@@ -77,7 +77,7 @@ _RE_STATES = re.compile(r'(\d+) states generated, (\d+) distinct states found')
 _RE_DEPTH = re.compile(r'depth of the complete state graph search is (\d+)')
 _RE_INV = re.compile(r'Invariant (\S+) is violated')
 _RE_PROP = re.compile(r'(?:Action property|Temporal propert(?:y|ies)) (\S*) ?(?:is|was|were) violated')
-_RE_COV = re.compile(r'^<(\w+) line \d+, col \d+ to line \d+, col \d+ of module (\w+)>: (\d+):(\d+)', re.M)
+_RE_COV = re.compile(r'^<(\w+) line \d+, col \d+ to line \d+, col \d+ of module (\w+)(?: \(\d+ \d+ \d+ \d+\))?>: (\d+):(\d+)', re.M)
 
 
 def run(module, cfg, workers=None, heavy=True, timeout=1800, env=None, extra=(), cwd=None,
@@ -116,7 +116,8 @@ def run(module, cfg, workers=None, heavy=True, timeout=1800, env=None, extra=(),
     if m:
         r.depth = int(m.group(1))
     for m in _RE_COV.finditer(p.stdout):
-        r.coverage[m.group(1)] = (int(m.group(3)), int(m.group(4)))
+        d0, t0_ = r.coverage.get(m.group(1), (0, 0))     # an action split into several sub-actions is reported once per part
+        r.coverage[m.group(1)] = (d0 + int(m.group(3)), t0_ + int(m.group(4)))
     mi = _RE_INV.search(p.stdout)
     mp = _RE_PROP.search(p.stdout)
     if mi:
